@@ -131,6 +131,7 @@ func runC01(w *W) {
 		}
 	}
 	w.genAlign(off192, ordinals, judge)
+	w.genBoundaryPairs(judge)
 	if th {
 		w.genAlignLarge([]int{64 << 10, 300 << 10, 2 << 20}, judge)
 	} else {
